@@ -98,6 +98,31 @@ type C16Req struct {
 	// Lvl: compression level + 3 the client used (0: the default level); every level is a
 	// valid stream, the zlib header differs (78 01 / 78 5e / 78 9c / 78 da)
 	Lvl int `json:"lvl,omitempty"`
+	// EncSpelling: how the coding is spelled in Content-Encoding. 0 as the library documents it
+	// (gzip, deflate); 1 GZIP/DEFLATE, 2 Gzip/Deflate, 3 a leading blank, 4 x-gzip (gzip only).
+	// Whether such a spelling is recognised is the library's choice: the body then reads back
+	// equal, or reading fails (the compressed bytes are no document) - and a broken body fails
+	// under either reading.
+	EncSpelling int `json:"enc_spelling,omitempty"`
+}
+
+func spellEncoding(enc string, how int) string {
+	if enc == "" {
+		return enc
+	}
+	switch how {
+	case 1:
+		return strings.ToUpper(enc)
+	case 2:
+		return strings.ToUpper(enc[:1]) + enc[1:]
+	case 3:
+		return " " + enc
+	case 4:
+		if enc == "gzip" {
+			return "x-gzip"
+		}
+	}
+	return enc
 }
 
 // C16Case is a history under one provider.
@@ -233,6 +258,9 @@ func genC16(t *rapid.T) C16Case {
 		r.Encoding = rapid.SampledFrom([]string{"", "gzip", "gzip", "deflate"}).Draw(t, "encoding")
 		r.Members = rapid.SampledFrom([]int{1, 1, 1, 2, 3}).Draw(t, "members")
 		r.Lvl = rapid.SampledFrom([]int{0, 0, 0, 1, 3, 4, 5, 6, 8, 9, 12}).Draw(t, "level")
+		if r.Encoding != "" && rapid.IntRange(0, 7).Draw(t, "spelled") == 0 {
+			r.EncSpelling = rapid.IntRange(1, 4).Draw(t, "encspelling")
+		}
 		if rapid.IntRange(0, 9).Draw(t, "damaged") < 4 {
 			if r.Encoding == "" {
 				r.Damage = rapid.SampledFrom([]string{"syntax", "garbage"}).Draw(t, "damage")
@@ -371,7 +399,7 @@ func checkC16(c C16Case) (vs []*Violation) {
 		if r.Codec == "xml" {
 			mime = restful.MIME_XML
 		}
-		where := fmt.Sprintf("req#%d %s enc=%q members=%d ctform=%d damage=%q", i, r.Codec, r.Encoding, r.Members, r.CTForm, r.Damage)
+		where := fmt.Sprintf("req#%d %s enc=%q members=%d ctform=%d damage=%q", i, r.Codec, spellEncoding(r.Encoding+"", r.EncSpelling), r.Members, r.CTForm, r.Damage)
 		// 1. write
 		restful.PrettyPrintResponses = r.Pretty
 		restful.DefaultRequestContentType("")
@@ -404,7 +432,7 @@ func checkC16(c C16Case) (vs []*Violation) {
 			restful.DefaultRequestContentType(mime)
 		}
 		if r.Encoding != "" {
-			q.Headers = append(q.Headers, model.H{K: "Content-Encoding", V: r.Encoding})
+			q.Headers = append(q.Headers, model.H{K: "Content-Encoding", V: spellEncoding(r.Encoding, r.EncSpelling)})
 		}
 		if len(wire) == 0 {
 			// an empty body cannot be sent with a positive Content-Length; it is "broken" all the same
@@ -431,6 +459,15 @@ func checkC16(c C16Case) (vs []*Violation) {
 		switch {
 		case r.Damage == "":
 			labels = append(labels, "wellformed_"+r.Codec+"_"+r.Encoding)
+			if r.EncSpelling != 0 && r.Encoding != "" && spellEncoding(r.Encoding, r.EncSpelling) != r.Encoding {
+				// a spelling the documentation does not name: recognised (equal) or not (an error)
+				labels = append(labels, "encoding_spelled_differently")
+				if last.err == nil && !equal {
+					vs = append(vs, viol("", "%s: Content-Encoding %q: ReadEntity returned no error and a value different from the one sent", where, spellEncoding(r.Encoding, r.EncSpelling)))
+				}
+				prevBroken = last.err != nil
+				break
+			}
 			if last.err != nil {
 				vs = append(vs, viol("", "%s: reading a well-formed body failed: %v (body %q)", where, last.err, truncate(plain, 300)))
 			} else if !equal {
